@@ -76,6 +76,7 @@ static const char *config_name = "?";
 
 static int boundP = 2, boundE = 0;
 static int opt_nohash, opt_hb, opt_semhb = 1, opt_verbose, opt_horizon = 6000;
+static int opt_strict;             /* every departure from the default choice costs a preemption, even where switching is free */
 static int opt_maxviol = 6;
 static double opt_deadline_s = 0;
 static long opt_maxstates = 24L<<20;
@@ -86,6 +87,7 @@ static int64_t now_ns __attribute__((aligned(8)));
 static int fault_mask;
 #define MAXINST 16
 static int64_t instants[MAXINST]; static int ninst;
+static int hint_next = -1;        /* mc_handoff: fiber to be preferred at the next decision */
 
 /* per-execution decision record */
 static int choice[MAXD], nopt[MAXD];
@@ -403,6 +405,10 @@ static void sched_point (int voluntary) {
 }
 void mc_point (void) { sched_point (0); }
 void mc_yield (void) { sched_point (1); }
+/* Voluntary switch with a preference: the named fiber becomes the default (first) option of the next
+   scheduling decision if it is enabled.  Lets a harness script an adversarial strategy as the
+   zero-deviation schedule; all other options remain alternatives for the explorer. */
+void mc_handoff (int fiber) { if (cur >= 0) { hint_next = fiber; sched_point (1); } }
 int mc_self (void) { return cur; }
 int64_t mc_now_ns (void) { return now_ns; }
 void mc_declare_instant (int64_t ns) { for (int i = 0; i < ninst; i++) if (instants[i] == ns) return; if (ninst < MAXINST) instants[ninst++] = ns; }
@@ -885,7 +891,7 @@ static int run_execution (void) {
 	if (!mc_snap) { mc_snap = malloc (msz); memcpy (mc_snap, __start_mcstate, msz); }
 	else memcpy (__start_mcstate, mc_snap, msz);
 	memset (ARENA_BASE, 0, arena_hi); arena_off = 0; arena_hi = 0; nblk = 0; alloc_count = 0; fail_alloc_at = 0;
-	now_ns = MC_T0; ninst = 0; fault_mask = 0; nnames = 0;
+	now_ns = MC_T0; ninst = 0; fault_mask = 0; nnames = 0; hint_next = -1;
 	have_viol = 0; viol[0] = 0; viol_pc[0] = viol_pc[1] = viol_pc[2] = 0;
 	outcome_len = 0; outcome[0] = 0;
 	if (opt_hb) sh_reset ();
@@ -898,8 +904,10 @@ static int run_execution (void) {
 	n_execs++;
 	for (;;) {
 		int opts[MAXF + 2 + MAXF*3], no = 0, nthr = 0, pre = 0, has_tick = 0, tickcost = 0;
+		int hint = hint_next; hint_next = -1;
+		if (hint >= 0 && hint < nfib && hint != last && enabled (hint) && !(last >= 0 && F[last].st == ST_RUN)) opts[no++] = hint; else hint = -1;
 		if (last >= 0 && enabled (last)) { opts[no++] = last; pre = (F[last].st == ST_RUN); }
-		for (int i = 0; i < nfib; i++) if (i != last && enabled (i)) opts[no++] = i;
+		for (int i = 0; i < nfib; i++) if (i != last && i != hint && enabled (i)) opts[no++] = i;
 		nthr = no;
 		int64_t ni = next_instant ();
 		if (ni != MC_NEVER) { opts[no++] = OPT_TICK; has_tick = 1; tickcost = nthr > 0; }
@@ -919,7 +927,7 @@ static int run_execution (void) {
 		if (c >= no) die ("replay divergence at decision %d: choice %d of %d options (nondeterminism in the harness or runtime)", depth, c, no);
 		choice[depth] = c; nopt[depth] = no; pt_nthr[depth] = nthr; pt_pre[depth] = pre; pt_tick[depth] = has_tick; pt_tickcost[depth] = tickcost;
 		/* cost of this choice */
-		if (c < nthr) { if (c > 0 && pre && boundP < 99) usedP++; }
+		if (c < nthr) { if (c > 0 && (pre || opt_strict) && boundP < 99) usedP++; }
 		else if (has_tick && c == nthr) { usedE += tickcost; }
 		else if (opts[c] >= OPT_FAULT && opts[c] < OPT_QUIESCE + 1000) usedE++;
 		depth++;
@@ -989,7 +997,7 @@ static int run_execution (void) {
 static void cost_of (int d, int k, int *dp, int *de) {
 	*dp = *de = 0;
 	int nthr = pt_nthr[d];
-	if (k < nthr) { if (k > 0 && pt_pre[d] && boundP < 99) *dp = 1; }
+	if (k < nthr) { if (k > 0 && (pt_pre[d] || opt_strict) && boundP < 99) *dp = 1; }
 	else if (pt_tick[d] && k == nthr) *de = pt_tickcost[d];
 	else if (nthr == 0 && !pt_tick[d] && k == 0) ;
 	else *de = 1;
@@ -1044,6 +1052,7 @@ int main (int argc, char **argv) {
 		else if (!strcmp (a, "--hb")) { opt_hb = 1; opt_nohash = 1; }
 		else if (!strcmp (a, "--sem-hb=off")) opt_semhb = 0;
 		else if (!strcmp (a, "--verbose")) opt_verbose = 1;
+		else if (!strcmp (a, "--strict")) opt_strict = 1;
 		else if (!strcmp (a, "--sample")) want_sample = 1;
 		else if (!strcmp (a, "--selftest-determinism")) selftest_det = 1;
 		else if (!strcmp (a, "--list-families")) { for (int k = 0; mc_families[k]; k++) puts (mc_families[k]->name); return 0; }
